@@ -2844,11 +2844,13 @@ int EGLPNUM_TYPENAME_ILLsimplex_pivotin (
 	EGLPNUM_TYPENAME_EGlpNumInitVar (rs.ecoeff);
 	EGLPNUM_TYPENAME_EGlpNumInitVar (rs.pivotval);
 	EGLPNUM_TYPENAME_EGlpNumZero (alpha);
+	EGLPNUM_TYPENAME_ILLsvector_init (&wz);
+	EGLPNUM_TYPENAME_ILLsvector_init (&updz);
 
 	*basis_mod = 0;
 	if (rcnt <= 0)
 	{
-		EG_RETURN (rval);
+		ILL_CLEANUP;
 	}
 
 	if (pivot_opt == SIMPLEX_PIVOTINROW)
@@ -2871,18 +2873,12 @@ int EGLPNUM_TYPENAME_ILLsimplex_pivotin (
 	}
 	if (*basis_mod == 0)
 	{
-		if (pivot_opt == SIMPLEX_PIVOTINROW)
-		{
-			ILL_IFFREE(clist);
-		}
-		EG_RETURN (rval);
+		ILL_CLEANUP;
 	}
 
 	/* QSlog("Forcing vars into basis in EGLPNUM_TYPENAME_ILLsimplex_pivotin"); */
-	EGLPNUM_TYPENAME_ILLsvector_init (&wz);
 	rval = EGLPNUM_TYPENAME_ILLsvector_alloc (&wz, lp->nrows);
 	CHECKRVALG (rval, CLEANUP);
-	EGLPNUM_TYPENAME_ILLsvector_init (&updz);
 	rval = EGLPNUM_TYPENAME_ILLsvector_alloc (&updz, lp->nrows);
 	CHECKRVALG (rval, CLEANUP);
 
